@@ -453,3 +453,145 @@ def named_agreement(w, r):
         return o
     a, b = f(w), f(r)
     return a == b, a, b
+
+
+# ---------------------------------------------------------------------------------------------------- cursor discipline
+def cursor_double_reads(ctx, fn):
+    """cursor-based readers (`position += n` between reads): [(line1, line2, start form)] for two reads of the buffer at the
+    SAME cursor expression with no assignment to the cursor on some path between them — the second read sees the bytes
+    of the first (an advance was dropped or moved into a branch).  Also returns the number of read events examined."""
+    out, nreads = [], 0
+    defs_ = [d for d in ctx.facts.body_defs() if d == fn or d.startswith(fn + '::{closure')]
+    for dd in sorted(defs_):
+        b = ctx.body(dd)
+        # cursor locals: named usize locals with a self-increment `L = L + x`
+        cursors = set()
+        for blk in sorted(b.reach):
+            for st in b.stmts(blk):
+                rv = st.get('rv')
+                if rv and rv['r'] == 'bin' and rv['op'].startswith('Add'):
+                    a = rv['a'].get('c') or rv['a'].get('m')
+                    if a and len(a) == 1 and b.local_name(a[0]) and b.locals[a[0]] == 'usize':
+                        cursors.add(a[0])
+        for L in sorted(cursors):
+            ldefs = [(bb_, i) for (bb_, i, whole) in b.defs.get(L, []) if whole]
+            defblocks = {bb_ for bb_, _ in ldefs}
+            events = []   # (bb, idx, line, form)
+            def uses_cursor(e):
+                from mir import walk
+                return any(x[0] == 'local' and x[1] == L for x in walk(e))
+            for blk in sorted(b.reach):
+                for i, st in enumerate(b.stmts(blk)):
+                    rv = st.get('rv')
+                    if not rv or st.get('x', '').startswith('m:'):
+                        continue
+                    # element read through an index projection
+                    for key in ('a', 'p'):
+                        pl = rv.get(key)
+                        if isinstance(pl, dict):
+                            pl = pl.get('c') or pl.get('m')
+                        if isinstance(pl, list):
+                            for pr in pl[1:]:
+                                if isinstance(pr, list) and pr and pr[0] == '[]':
+                                    e = b.expr_local(pr[1])
+                                    if uses_cursor(e) or pr[1] == L:
+                                        events.append((blk, i, st.get('ln'), canon(e if pr[1] != L else ('local', L, b.local_name(L)), 0, 2)))
+                    # a range starting at the cursor
+                    if rv['r'] == 'agg' and (rv.get('adt') or '').endswith(('Range', 'RangeFrom')):
+                        e = b._expr_rvalue(rv, 0, frozenset())
+                        d_ = dict(e[3])
+                        s_ = d_.get('start')
+                        if s_ is not None and uses_cursor(s_):
+                            events.append((blk, i, st.get('ln'), canon(s_, 0, 2)))
+            nreads += len(events)
+            for x in events:
+                for y in events:
+                    if x is y or x[3] != y[3] or x[2] == y[2]:
+                        continue
+                    if x[0] == y[0]:
+                        if x[1] < y[1] and not any(bb_ == x[0] and (i == 't' or x[1] < i < y[1]) for bb_, i in ldefs if bb_ == x[0] and i != 't'):
+                            out.append((x[2], y[2], x[3]))
+                        continue
+                    if any(bb_ == x[0] and (i == 't' or i > x[1]) for bb_, i in ldefs):
+                        continue
+                    if any(bb_ == y[0] and i != 't' and i < y[1] for bb_, i in ldefs):
+                        continue
+                    mid = defblocks - {x[0], y[0]}
+                    reach = set()
+                    for s in b.succ(x[0]):
+                        if s not in mid:
+                            reach |= b.reachable(s, avoid_blocks=mid | {x[0]}) if s != y[0] else {y[0]}
+                    if y[0] in reach:
+                        out.append((x[2], y[2], x[3]))
+    return sorted(set(out)), nreads
+
+
+# ---------------------------------------------------------------------------------------------------- HTTP path templates
+def _decode_fmt(k):
+    """format_args! template of the nightly encoding (length-prefixed literal pieces, bytes >= 0x80 = argument): 'a/{}/b'"""
+    import ast
+    try:
+        bs = ast.literal_eval(k)
+    except Exception:
+        return None
+    out, i = '', 0
+    while i < len(bs):
+        c = bs[i]
+        if c == 0:
+            break
+        if c >= 0x80:
+            out += '{}'
+            i += 1
+            continue
+        out += bs[i + 1:i + 1 + c].decode('utf8', 'replace')
+        i += 1 + c
+    return out
+
+
+def http_templates(ctx):
+    """({sdk fn: [template]}, {server router fn: [route]}) — SDK path templates built with format! in iggy::http::*, routes
+    registered with Router::route in server::http::*"""
+    sdk, srv = {}, {}
+    for n in sorted(ctx.facts.body_defs()):
+        if n.startswith('iggy::http::'):
+            raw = ctx.facts.raw_body(n)
+            for bl in raw['blocks']:
+                for s in bl['s']:
+                    a = (s.get('rv') or {}).get('a') or {}
+                    if 'k' in a and a.get('ty', '').startswith('&[u8;') and a['k'].startswith('b"'):
+                        t = _decode_fmt(a['k'])
+                        if t and '/' in t:
+                            sdk.setdefault(n, []).append(t)
+        elif n.startswith('server::http::'):
+            raw = ctx.facts.raw_body(n)
+            if not any((bl.get('term') or {}).get('t') == 'call' and ((bl['term'].get('fn') or '').endswith('Router::route')) for bl in raw['blocks']):
+                continue
+            for bl in raw['blocks']:
+                for s in bl['s']:
+                    a = (s.get('rv') or {}).get('a') or {}
+                    if 'k' in a and a.get('ty') == '&str' and a['k'].startswith('"/'):
+                        srv.setdefault(n, []).append(a['k'].strip('"'))
+                t = bl.get('term') or {}
+                if t.get('t') == 'call':
+                    for a in t.get('args', []):
+                        if 'k' in a and a.get('ty') == '&str' and a['k'].startswith('"/'):
+                            srv.setdefault(n, []).append(a['k'].strip('"'))
+    return sdk, srv
+
+
+def _segs(t):
+    t = t.split('?')[0].strip('/')
+    out = []
+    for s in t.split('/'):
+        if s == '{}' or re.match(r'^\{\w+\}$', s):
+            out.append('*')
+        elif '{' in s:
+            out.append('mixed:' + re.sub(r'\{\w*\}', '{}', s))
+        else:
+            out.append(s)
+    return out
+
+
+def template_matches(t, routes):
+    a = _segs(t)
+    return any(a == _segs(r) for r in routes)
